@@ -120,6 +120,28 @@ def run(name, spec_module, constants, invariants=(), constraints=(), properties=
   if depth:
     cmd += ["-depth", str(depth)]
   cmd += ["-config", "MC.cfg", "MC.tla"]
+  # A run that depends on the specification text and the generated MC files only (no observation / trace / scenario file in
+  # `env`, no simulation) is a pure function of them: its output is kept under work/tlc_cache and reused by the next check
+  # that asks for exactly the same run (C01/C02/C03 and C04/C05 share their design-level explorations). Nothing in it depends
+  # on /repo. VERIF_TLC_CACHE=0 turns it off.
+  cache_file = None
+  if not env and not simulate and os.environ.get("VERIF_TLC_CACHE", "1") != "0":
+    import hashlib
+    h = hashlib.sha256()
+    for f in sorted(os.listdir(wd)):
+      if f.endswith((".tla", ".cfg")):
+        h.update(f.encode() + b"\0" + open(os.path.join(wd, f), "rb").read() + b"\0")
+    h.update(" ".join(x for x in cmd if not x.startswith(wd)).encode())
+    cache_file = os.path.join(WORK, "tlc_cache", h.hexdigest() + ".json")
+    if os.path.exists(cache_file):
+      try:
+        c = json.load(open(cache_file))
+        open(os.path.join(wd, "tlc.out"), "w").write(c["out"])
+        res = TLCResult(c["out"], c["rc"], c["wall"])
+        res.cached = True
+        return res
+      except Exception:  # pylint: disable=broad-except
+        pass
   t0 = time.time()
   e = dict(os.environ)
   if env:
@@ -135,4 +157,10 @@ def run(name, spec_module, constants, invariants=(), constraints=(), properties=
   wall = time.time() - t0
   open(os.path.join(wd, "tlc.out"), "w").write(out)
   shutil.rmtree(os.path.join(wd, "states"), ignore_errors=True)
-  return TLCResult(out, rc, wall)
+  res = TLCResult(out, rc, wall)
+  if cache_file and res.finished and not res.error and rc in (0, 12) and len(out) < 120 * 1024 * 1024:
+    os.makedirs(os.path.dirname(cache_file), exist_ok=True)
+    tmp = cache_file + ".%d.tmp" % os.getpid()
+    json.dump({"out": out, "rc": rc, "wall": wall}, open(tmp, "w"))
+    os.replace(tmp, cache_file)
+  return res
